@@ -310,7 +310,15 @@ def rule_propagation(ck: Check, repo: Repo, qual: str, rid: str, full: bool) -> 
             r.violation(qual, "returned object",
                         f"effects go to {sorted(objs)} but {leaf.outcome} is returned", repo.loc(fn))
         res_ev = [e for c, e in ev if e[0] == "results"]
-        sub = "subset_files=subset_files" in (res_ev[0][1] if res_ev else "")
+        sub = False
+        if res_ev:
+            try:
+                from ..model import kwarg as _kw
+                _c = ast.parse(res_ev[0][1], mode="eval").body
+                _a = _kw(_c, "subset_files") if isinstance(_c, ast.Call) else None
+                sub = _a is not None and ast.unparse(_a) == "subset_files"
+            except SyntaxError:
+                sub = "subset_files=subset_files" in res_ev[0][1]
         if len(res_ev) != 1 or not res_ev[0][1].startswith("_generate_file_reports(project,"):
             r.violation(qual, "file reports source",
                         "results do not come from _generate_file_reports(project, ...)", repo.loc(fn))
